@@ -329,9 +329,7 @@ func VerifC61_history() {
 			P := ts.pendingTime.UnixNano()
 			e0 := ts.levels[0].end.UnixNano()
 			if step == wstep {
-				if adds > 0 {
-					behind = vfAnd(P < g.tw, g.tw <= e0-s0)
-				}
+				behind = vfAnd(P < g.tw, g.tw <= e0-s0) // zero P/e0 (no add / no tick yet): false unless a tick came first
 				ts.AddWithTime(&c61obs{g.vw}, time.Unix(0, g.tw))
 				if adds == 0 || g.tw > P-s0 {
 					g.status = 1
